@@ -22,3 +22,8 @@ CLAIMS["C01"] = {
     "note": "Scope model: innermost live install wins, else global, else nothing observable. After mem::forget only the 'never after borrow ended' clause is judged. The no-op recorder is observed only as absence of deliveries.",
     "technique": "runtime monitoring: logging recorder doubles + per-thread scope reference model over generated programs; ASan/Miri legs with real frees",
 }
+CLAIMS["C04"] = {
+    "text": "Exploration: multi-threaded runs over clones of one handle check exact conservation (counter sum mod 2^64, gauge exact sums), monotonicity and the max-absolute bound; thousands of short concurrent gauge histories are checked for linearizability against a sequential register-with-add model; record/record_many delivery counts and IntoF64 conversions are checked through logging doubles for every value class; Miri re-runs small versions. Held = no lost/duplicated update or non-linearizable history observed.",
+    "note": "x86 atomics are stronger than the orderings written in the source; weaker orderings are only exercised by the Miri leg. Gauge sums are judged on exactly representable operands only.",
+    "technique": "runtime monitoring: conservation/monotonicity oracles over stress runs + Wing-Gong linearizability check of recorded gauge histories; logging HistogramFn doubles",
+}
